@@ -281,7 +281,7 @@ def run(tier):
     # the same with 12 and with 700 answers to write (a wake-up pipe drained in reads of any fixed size must not lose the request of the
     # connection that has to be closed): fixed histories, both scheduling policies
     nflood = 0
-    jobs = [(n, last, a, b, pol) for n in (12, 700) for last in ("badlen", "dpr") for a, b in ((0, 1), (1, 0)) for pol in (False, True)]
+    jobs = [(n, last, a, b, pol) for n in (12, 50, 700) for last in ("badlen", "dpr") for a, b in ((0, 1), (1, 0)) for pol in (False, True)]
     for cnt, vsf in common.pmap(flood_case, jobs, chunksize=1):
         nflood += cnt
         for key, detail, case in vsf:
